@@ -54,6 +54,12 @@ class C05(Property):
             spec["fault"] = None
             spec["perms"] = gen_coupling.permutations_of(spec, rnd, max_orders=24 if tier == "thorough" else 12)
             return spec
+        if i % 6 == 2:
+            # fan-out below a pass-through adapter next to a no-branch adapter on the same output: link creation order must not matter
+            spec = gen_coupling.gen_branching(rnd)
+            spec["fault"] = None
+            spec["perms"] = gen_coupling.permutations_of(spec, rnd, max_orders=24 if tier == "thorough" else 12)
+            return spec
         spec = gen_coupling.gen_dag(rnd, cycle="sufficient" if rnd.random() < 0.25 else None, max_comps=4 if rnd.random() < 0.8 else 5)
         for ln in spec["links"]:
             ln["chain"] = [a for a in ln["chain"] if a[0] != "dpush"]
